@@ -99,7 +99,7 @@ pub struct ReplayFile {
 /// which worlds (scenario families) serve a property, with weights
 fn plan(property: &str) -> Vec<(&'static str, &'static str, u32)> {
     match property {
-        "C06" => vec![("nucleo", "C06", 6), ("nucleo", "mix", 2), ("nucleo", "C12", 1)],
+        "C06" => vec![("nucleo", "C06", 6), ("nucleo", "mix", 2), ("nucleo", "C12", 1), ("nucleo", "C07seq", 1)],
         "C07" => vec![("nucleo", "C07", 5), ("nucleo", "C07seq", 3), ("nucleo", "mix", 1)],
         "C12" => vec![("nucleo", "C12", 7), ("nucleo", "mix", 2)],
         "C19" => vec![("nucleo", "C19", 6), ("nucleo", "C12", 2), ("nucleo", "mix", 2)],
